@@ -149,16 +149,20 @@ func runSingle(run *report.Run, check string, cfgs []*world.Config, mon func(*wo
 	}
 }
 
-func stdOps(cfg *world.Config) []world.Op { return SingleOps(cfg, true) }
+func stdOps(cfg *world.Config) []world.Op { return withKeptRoot(cfg, SingleOps(cfg, true)) }
 
-func opsWithJSON(cfg *world.Config) []world.Op {
-	ops := SingleOps(cfg, true, world.Op{Kind: world.OpReloadJSON})
+// withKeptRoot: for depth-bounded cache configurations (retained roots multiply the state space, so
+// not for closures) keep a root, let the cache lose its entries, load the kept root again through
+// the cold or warm cache and go on from that older version.
+func withKeptRoot(cfg *world.Config, ops []world.Op) []world.Op {
 	if cfg.Cache != "none" && cfg.Cache != "" && !cfg.InMemory && cfg.MaxDepth > 0 {
-		// (depth-bounded cache configurations only: retained roots multiply the state space)
-		// keep a root, let the cache lose its entries, load the kept root again (through the cold, then warm cache)
 		ops = append(ops, world.Op{Kind: world.OpKeep, A: 0, B: 0}, world.Op{Kind: world.OpFlushCache}, world.Op{Kind: world.OpLoad, A: 0, B: 0})
 	}
 	return ops
+}
+
+func opsWithJSON(cfg *world.Config) []world.Op {
+	return withKeptRoot(cfg, SingleOps(cfg, true, world.Op{Kind: world.OpReloadJSON}))
 }
 
 const ruleSingle = "explicit-state BFS to closure over {insert,delete} x keys x values, MakeRoot, MakeRoot+LoadMast on one tree (plus cached reads when a cache is attached); the property's monitor runs on every transition of the real implementation"
